@@ -57,6 +57,9 @@ def run(ctx):
 
     H = ctx.H
     w = make_world(ctx, FEAT, gene_lengths=(3, 8, 32, 64))
+    import contextlib
+
+    es = contextlib.ExitStack()
     try:
         ctx.sample = w.describe()
         if not w.extract().ok:
@@ -70,8 +73,10 @@ def run(ctx):
         multi = H.draw(3) == 2
         invocations = []
 
+        ref = w.ref  # (closures must not capture the world: individuals cross the simulated process boundary with their fitness store)
+
         def h(p):
-            return structural_hash(canon(p, w.ref))
+            return structural_hash(canon(p, ref))
 
         nan_some = H.draw(3) == 2  # a fitness function that is undefined (NaN) for some programs
 
@@ -90,7 +95,17 @@ def run(ctx):
         else:
             problem = SingleObjectiveProblem(ff_single, minimize=bool(H.draw(2)))
         problems = [("p", problem)]
-        evaluator = SequentialEvaluator()
+        parallel = H.draw(5) == 4
+        if parallel:
+            from geneticengine.evaluation.parallel import ParallelEvaluator
+
+            evaluator = ParallelEvaluator()
+            ctx.stat("parallel_evaluator_runs")
+            from ..seams import installed_pool
+
+            es.enter_context(installed_pool(ctx))
+        else:
+            evaluator = SequentialEvaluator()
         pool: list = []
         snaps: list = []
         w.install_flaky()
@@ -115,10 +130,28 @@ def run(ctx):
 
         # initial population
         n0 = 2 + H.draw(7)
+        def rebuild(v):
+            """the same program written by hand: plain constructor calls, no metadata of the library on any node"""
+            if isinstance(v, list):
+                return [rebuild(e) for e in v]
+            if type(v) is tuple:
+                return tuple(rebuild(e) for e in v)
+            n = ref.cls_of(v)
+            if n is None:
+                return v
+            return type(v)(*[rebuild(ref.field(v, n, fn)) for fn, _ in ref.cls[n]["fields"]])
+
         for _ in range(n0):
             r = w.op_create()
             if r.ok:
                 add(Individual(w.pool[r.new[0]], w.rep))
+                if kind == "tree" and H.draw(4) == 0:
+                    # a hand-written program among the inputs (what InjectInitialPopulationWrapper is given)
+                    try:
+                        add(Individual(rebuild(w.pool[r.new[0]]), w.rep))
+                        ctx.stat("hand_written_inputs")
+                    except Exception:
+                        ctx.stat("foreign_failure:rebuild")
         if len(pool) < 2:
             ctx.stat("foreign_failure:no-population")
             return
@@ -200,4 +233,5 @@ def run(ctx):
     except SnapshotTooLarge:
         ctx.stat("unjudged:program-too-large-to-snapshot")
     finally:
+        es.close()
         w.dispose()
